@@ -67,6 +67,18 @@ func (sc *subscriptionCancellations) CancelAll() {
 	}
 }
 
+// IDs returns a snapshot of the ids of all active subscriptions, taken under the lock, so that
+// callers can iterate (and Cancel) without racing with concurrent Add/Cancel calls.
+func (sc *subscriptionCancellations) IDs() []string {
+	sc.mu.RLock()
+	defer sc.mu.RUnlock()
+	ids := make([]string, 0, len(sc.cancellations))
+	for id := range sc.cancellations {
+		ids = append(ids, id)
+	}
+	return ids
+}
+
 func (sc *subscriptionCancellations) Len() int {
 	sc.mu.RLock()
 	defer sc.mu.RUnlock()
